@@ -1,7 +1,9 @@
 (* Properties_C05.v — C05: no leak, no foreign or double close.  Theorems only (ownership table,
-   close footprints of the post-start API, exit block of start); the balance of whole histories
-   under every fault plan is decided by the tie's fault enumeration. *)
-From Verif Require Import Lib WorldSpec LibSpec LibSpec2.
+   close footprints of the post-start API, exit block of start) and THE MEMORY HALF FOR EVERY FAULT
+   PLAN (C05_start_releases_every_block, proof in HeapSpec.v); the descriptor and child balance of
+   whole histories under every fault plan is decided by the tie's fault enumeration. *)
+From Verif Require Import Lib Build OptSpec WorldSpec WorldSpec2 LibSpec LibSpec2 ParentSpec HeapSpec.
+Import Lib.
 From Coq Require Import Lia.
 Local Open Scope Z_scope.
 
@@ -61,6 +63,66 @@ Theorem C05_failed_start_owns_nothing : forall p argv o src k,
   post (reproc_start p argv o src k) (start_post p o argv).
 Proof. exact post_reproc_start. Qed.
 Print Assumptions C05_failed_start_owns_nothing.
+
+(* MEMORY, EVERY FAULT PLAN: whatever reproc_start returns and whatever fails on the way -- any
+   calls failing at any call index, allocation failures at any point of the program-path copy
+   (incl. the getcwd/realloc growth loop) and of the environment copy included, any latencies,
+   whatever the forked child does -- the caller's heap afterwards holds exactly the blocks it held
+   before: every block start allocates is released exactly once (a second release of an owned
+   block, or the release of a block start does not own, would show as a live-set difference or
+   is recorded by the ledger).  The ledger belongs to the calling process; a forked child works
+   on its own copy. *)
+Theorem C05_start_releases_every_block : forall p argv o src (ck : rp -> MW unit) w r p' w',
+  WorldSpec2.wf w -> 0 <= w_cur w -> w_cur w = w_main w -> 0 < w_next_blk w ->
+  (forall id, w_next_blk w <= id -> heap_live id w = false) ->
+  (forall q, kp (w_cur w) (ck q)) -> (forall q, hk true (ck q)) ->
+  reproc_start p argv o src ck w = Ret (r, p') w' ->
+  forall id, heap_live id w' = heap_live id w.
+Proof. exact reproc_start_frees. Qed.
+Print Assumptions C05_start_releases_every_block.
+
+Theorem C05_process_start_releases_every_block : forall pr argv o ck w r pid w',
+  WorldSpec2.wf w -> 0 <= w_cur w -> w_cur w = w_main w -> 0 < w_next_blk w ->
+  (forall id, w_next_blk w <= id -> heap_live id w = false) ->
+  kp (w_cur w) ck -> hk true ck ->
+  process_start pr argv o ck w = Ret (r, pid) w' ->
+  forall id, heap_live id w' = heap_live id w.
+Proof. exact process_start_frees. Qed.
+Print Assumptions C05_process_start_releases_every_block.
+
+(* non-vacuity: a start with a working directory, a relative program (so the path goes through the
+   cwd-prefix loop) and an extra environment entry (five allocations in all): without faults it
+   succeeds, with an allocation-class error injected at call 27 it fails with that error; either
+   way the one block that was live before (the handle) is the only live block afterwards *)
+Definition C05_ex_opts : options :=
+  {| o_wd := Some [47; 119]; o_env_behavior := REPROC_ENV_EXTEND; o_env_extra := Some [[88; 61; 49]];
+     o_in := redirect_zero; o_out := redirect_zero; o_err := redirect_zero;
+     o_parent := false; o_discard := false; o_file := 0; o_path := None;
+     o_stop := {| st_first := noop; st_second := noop; st_third := noop |}; o_deadline := 0;
+     o_input_data := false; o_input_size := 0; o_fork := false; o_nonblocking := false |}.
+Definition C05_ex_world (faults : list (Z * positive)) : world :=
+  let w := build_world 1000 0 7 [(0, {| f_obj := OExt 1 ARd; f_cloexec := false; f_nonblock := false |})]
+              [] [] [47; 119] [[65; 61; 49]; [66; 61; 50]] 64
+              [([47], FDir); ([47; 119], FDir); ([47; 119; 47; 116], FExec [])] faults [] std_files in
+  w_with_heap (<[1 := (true, 64)]> (w_heap w)) 2 w.
+Definition C05_ex_run (faults : list (Z * positive)) : bool :=
+  match reproc_start (rp_new 1) (Some [[46; 47; 116]]) C05_ex_opts 0 (fun _ => ret tt) (C05_ex_world faults) with
+  | Ret (r, _) w' => (if faults then r =? 1 else r <? 0) && forallb (fun id => Bool.eqb (heap_live id w') (id =? 1)) [1; 2; 3; 4; 5; 6; 7; 8]
+  | _ => false end.
+Example C05_ex_start :
+  let w := C05_ex_world [(27, 12%positive)] in
+  WorldSpec2.wf w /\ 0 <= w_cur w /\ w_cur w = w_main w /\ 0 < w_next_blk w /\
+  (forall id, w_next_blk w <= id -> heap_live id w = false) /\
+  C05_ex_run [] = true /\ C05_ex_run [(27, 12%positive)] = true.
+Proof.
+  cbn zeta. split.
+  { split.
+    - eexists. split; [apply lookup_singleton|]. split; reflexivity.
+    - intros k [x Hk]. cbn in Hk. apply lookup_singleton_Some in Hk. destruct Hk as [<- _]. cbn. lia. }
+  split; [cbn; lia|]. split; [reflexivity|]. split; [cbn; lia|]. split.
+  - intros id Hid. unfold heap_live. cbn in Hid |- *. rewrite lookup_insert_ne by lia. rewrite lookup_empty. reflexivity.
+  - split; vm_compute; reflexivity.
+Qed.
 
 Example C05_ex : redirect_destroy_closes REPROC_REDIRECT_PIPE = true /\ redirect_destroy_closes REPROC_REDIRECT_HANDLE = false.
 Proof. split; reflexivity. Qed.
